@@ -41,11 +41,13 @@ class C19(Check):
               "replace/rename onto it) or a failing read is treated as a miss; alarm = direct open(final,'w') AND unprotected load",
         "D2": "on a miss the computed value itself is returned and saved under the path the hit path reads; hit and miss return the "
               "same key; the cache directory is created before any worker runs",
+        "D5": "the cache key of a work item determines the work item: scans must not cache a row's result under the row's label / position alone "
+              "(a reused cache directory then answers a different scan)",
         "D4": "the default key -> file name function is deterministic across processes and runs (no hash(), id(), time, random, pid): a rerun "
               "must find the files of the previous run",
         "D3": "every public scan / Monte-Carlo entry that accepts a cache forwards it to parallelise",
     }
-    floors = {"D1": 1, "D2": 5, "D3": 4, "D4": 1}
+    floors = {"D1": 1, "D2": 5, "D3": 4, "D4": 1, "D5": 8}
     decided = [
         "a kill at any instant of a result write cannot leave a truncated file under a name the rerun trusts",
         "cached and uncached runs return the same (key, value) pairs; the rerun reads what the first run saved",
@@ -261,6 +263,29 @@ class C19(Check):
                                   witness=f"{rel[:-3]}.{name}(..., cache=Cache(d)) leaves d empty")
                 else:
                     self.info("D3", rel, name, "cache-forwarded", fn, "no parallelise call found in this function")
+                # ---- D5: the cache key of a work item must determine the work item
+                for c in [c for c in calls if {k.arg: norm(k.value) for k in c.keywords}.get("cache") == "cache"]:
+                    inp = {k.arg: k.value for k in c.keywords}.get("inputs")
+                    if inp is None:
+                        continue
+                    t_ = inp.args[0] if isinstance(inp, ast.Call) and norm(inp.func) == "list" and inp.args else inp
+                    kind = "?"
+                    if isinstance(t_, ast.Call) and isinstance(t_.func, ast.Attribute) and t_.func.attr == "iterrows":
+                        kind = "row-label"
+                    elif isinstance(t_, ast.Call) and norm(t_.func) == "enumerate":
+                        kind = "position"
+                    elif isinstance(t_, ast.Call) and norm(t_.func) == "zip" and len(t_.args) == 2:
+                        kind = "value" if norm(t_.args[0]) == norm(t_.args[1]) else "?"
+                    cons = "cache-key-determines-work-item"
+                    if kind in ("row-label", "position"):
+                        self.violated("D5", rel, name, cons, c,
+                                      f"results are cached under the {kind} of each scan row (`{norm(inp)[:50]}`), not under what is computed: a second scan with other values "
+                                      "but the same row labels, run with the same (by default shared) cache directory, is answered from the first scan's files",
+                                      witness="c = Cache(d); scan.steady_state(m, to_scan={'kin': [1, 2]}, cache=c); scan.steady_state(m, to_scan={'kin': [5, 6]}, cache=c) returns the results for 1 and 2")
+                    elif kind == "value":
+                        self.holds("D5", rel, name, cons, c, "each result is cached under the value it was computed for")
+                    else:
+                        self.info("D5", rel, name, cons, c, f"key construction `{norm(inp)[:60]}` not classified")
 
     def must_fire(self):
         return [
